@@ -22,7 +22,8 @@ REGISTRATION = {
             "FindStop/TruncateStop executed on distinguishing inputs -> Generated/C14_Variant.lean -> tree_findstop_repaired by "
             "decide); consumer_schedule_independent, batch_mates_independent and disconnect_prefix say that the stream is a "
             "function of (pieces, stops, limit) only; cacheKeep_spec: at a stop string the cache keeps exactly the inputs of the "
-            "tokens streamed in full and the reslice is in range. For the first-listed FindStop the multi-stop clause is false "
+            "tokens streamed in full; cache_reslice_in_range: along every history the reslice seq.cache.Inputs[:tokenLen] is in "
+            "range (0 <= tokenLen <= inputs submitted so far). For the first-listed FindStop the multi-stop clause is false "
             "(finding F7, fixed in /repo; Lean witness) and proved under a guard. The model is compared exactly with the real "
             "functions of runner/common, with the real ollamarunner loop (NewSequence, LoadCacheSlot, processBatch, "
             "removeSequence, flushPending; scripted model + greedy sampler behind the Server) run with a prompt reader, with "
@@ -94,6 +95,8 @@ THEOREMS = [
     "OllamaVerif.C14.cacheKeep_spec",
     "OllamaVerif.C14.shape_whole",
     "OllamaVerif.C14.empty_stop_streams_nothing",
+    "OllamaVerif.C14.cacheLen_in_range",
+    "OllamaVerif.C14.cache_reslice_in_range",
 ]
 # Model variant the oracle is asked to run: 1 = first listed stop (finding F7, fixed in /repo 6e9857ebf), 0 = earliest
 # occurrence.  NOT a constant any more: decided on every run by executing the real FindStop (regenerate_variant), and
